@@ -6,7 +6,12 @@
    Outside well-formed diffs three JavaScript coercions are NOT modelled and yield Err instead (documented in
    notes/C15.md): Array.join on non-string items, string += array, and a 'patch' op inside a line. *)
 From Coq Require Import List NArith ZArith Bool Lia.
-From NB Require Import Base.Res Base.Json Base.PyStr Diff.DiffFormat Diff.Patch Ts.TsSplit.
+From NB Require Import Base.Res.
+From NB Require Import Base.Json.
+From NB Require Import Base.PyStr.
+From NB Require Import Diff.DiffFormat.
+From NB Require Import Diff.Patch.
+From NB Require Import Ts.TsSplit.
 Import ListNotations.
 
 (* validateSequenceOp(base, entry): only base.length matters *)
